@@ -2,7 +2,7 @@ BOUNDS = ('formats BMP, PNM, TARGA through FILE* and file name; per query the fi
           '(BMP: header size {12,40,108}, bits per pixel {1,4,8,15,16,24,32,other}, compression {0,1,2,3}, width/height <= 5x2 incl. top-down, palette size, '
           'PNM: type P1..P6, the ASCII header text, ASCII sample data (concrete seeded digits), TARGA: image type, bit depth, descriptor, id length, dimensions); '
           'every other byte (offsets, masks, palette entries, run lengths, pixel data, reserved fields) is symbolic; L ranges over every header boundary and truncation point of the variant (quick: a subset)')
-OUTSIDE = ('run-length-coded BMP (compression 1, 2) and TARGA (image type 10) data: no verdict within 300 s even with run lengths bounded to 4..7 (kept as thorough-tier attempts); PNG, JPEG, TIFF (decoding is done by libpng/libjpeg/libtiff, external C libraries outside /repo: not encodable); std::istream devices (not modelled: FILE* and file name only); '
+OUTSIDE = ('run-length-coded BMP / TARGA data with *symbolic* packet structure (no verdict within the cap; run-length decoders are covered with concrete packet structure and symbolic colour values, plus fully concrete streams); PNG, JPEG, TIFF (decoding is done by libpng/libjpeg/libtiff, external C libraries outside /repo: not encodable); std::istream devices (not modelled: FILE* and file name only); '
            'images larger than 5x2; fully symbolic headers (no verdict: the parser branches on every header byte); I/O errors other than end of file; allocations above 4 KiB succeeding')
 ASSUMPTIONS = ['the FILE* model (rt/rt_file.c) stands for libc: short reads at end of file, ferror() == 0', 'operator new refuses allocations above 4 KiB with std::bad_alloc',
                'control-flow-deciding header bytes are enumerated concretely, not symbolically']
@@ -119,12 +119,12 @@ def queries(tier, seed):
         for sn, st in bmp8_streams.items():
             base = 54; pal = 16; ds = base + pal
             for L in sorted(set([ds + len(st), ds + len(st) - 1, ds + len(st) // 2])):
-                par = [1, 40, bpp, comp, 3, 2, 4, ds, -1, ds, 0, 0, 0, 0, 0] + [len(st)] + st
+                par = [1, 40, bpp, comp, 3, 2, 4, ds, -1, ds, 0, 0, 0, 0] + [len(st)] + st
                 p = [L] + par
                 d = dict(FORMAT=1, ENTRY=E['convert_image'], DEV=1)
                 qs.append(Q('bmp/convert_image/file/rle%d_%s/L%d' % (bpp, sn, L), 'C11/read.cpp', 'h_read', defs=d, params=p, rt=['file'], unwind=20,
                             unwindset=[(r'St6vector|fill_n|uninitialized|read_palette', 310)], rt_unwind=L + 4, mem_unwind=400, cdefs=dict(VP_FILE_MAX=L + 8),
-                            tier='thorough', timeout=300,   # attempts: no verdict within 300 s even with concrete run-length structure
+                            tier='quick' if (L == ds + len(st) and (bpp == 4 or sn in ('valid', 'cross_row', 'absolute'))) else 'thorough', timeout=300,
                             note='run-length structure concrete, colour indices symbolic'))
     # the same streams with concrete colour indices: the whole file is concrete, the symbolic executor just runs the decoder and the model
     # checker's object bounds are the oracle (this is a concrete test through the memory model, listed as such in the evidence)
@@ -134,8 +134,8 @@ def queries(tier, seed):
             conc = [(b if b != S else (1 + (i * 3) % 3)) for i, b in enumerate(st)]
             L = ds + len(conc)
             hdrfill = list(range(2, 10)) + list(range(26, 28)) + list(range(34, 46)) + list(range(50, 70))   # remaining header / palette bytes
-            par = [1, 40, bpp, comp, 3, 2, 4, ds, -1, ds, 0, 0, 0, 0, 0] + [len(conc)] + conc
-            qs.append(Q('bmp/convert_image/file/runlen%d_%s_concrete/L%d' % (bpp, sn, L), 'C11/read.cpp', 'h_read', defs=dict(FORMAT=1, ENTRY=E['convert_image'], DEV=1, CONCRETE_REST=1), params=[L] + par, rt=['file'], unwind=20,
+            par = [1, 40, bpp, comp, 3, 2, 4, ds, -1, ds, 0, 0, 0, 0] + [len(conc)] + conc
+            qs.append(Q('bmp/convert_image/file/runlen%d_%s_concrete/L%d' % (bpp, sn, L), 'C11/read.cpp', 'h_read', defs=dict(FORMAT=1, ENTRY=E['convert_image'], DEV=1, CONCRETE_REST=1, EXPECT_OUTCOME=(1 if sn in ('valid', 'cross_row', 'long_run', 'absolute', 'delta') else 0)), params=[L] + par, rt=['file'], unwind=20,
                         unwindset=[(r'St6vector|fill_n|uninitialized|read_palette', 310), (r'^F_h_read$', 130)], rt_unwind=L + 4, mem_unwind=400, cdefs=dict(VP_FILE_MAX=L + 8), tier='quick', timeout=300,
                         note='fully concrete file: decoder executed through the memory model (object bounds oracle), no symbolic data'))
     tga_streams = {   # 24-bit, 3x2 = 6 pixels; packet header: 0x80|(n-1) run of one pixel, n-1 raw pixels
@@ -148,14 +148,14 @@ def queries(tier, seed):
     for sn, st in tga_streams.items():
         ds = 18
         for L in sorted(set([ds + len(st), ds + len(st) - 1])):
-            par = [0, 0, 10, 24, 0, 3, 2, -1, ds, 0, 0, 0, 0, 0, 0] + [len(st)] + st
+            par = [0, 0, 10, 24, 0, 3, 2, -1, ds, 0, 0, 0, 0, 0] + [len(st)] + st
             # targa_file: mask at base+7 (param index 8), datastart base+8; structured stream from base+14
             qs.append(Q('targa/read_image/file/rle_%s/L%d' % (sn, L), 'C11/read.cpp', 'h_read', defs=dict(FORMAT=3, ENTRY=E['read_image'], DEV=1, PIX='gil::rgb8_pixel_t'), params=[L] + par, rt=['file'],
-                        unwind=140, rt_unwind=L + 4, mem_unwind=400, cdefs=dict(VP_FILE_MAX=L + 8), tier='thorough', timeout=300,
-                        note='attempt: run-length structure concrete, colour values symbolic; no verdict within 300 s'))
+                        unwind=140, rt_unwind=L + 4, mem_unwind=400, cdefs=dict(VP_FILE_MAX=L + 8), tier='quick' if L == ds + len(st) else 'thorough', timeout=300,
+                        note='run-length structure concrete, colour values symbolic'))
     import re as _re
     for q in qs:
-        if _re.search(r'_c[12]_|/t10_|/rle', q.name): q.timeout = 100; q.tier = 'thorough'   # run-length attempts: short cap, never quick
+        if _re.search(r'_c[12]_|/t10_', q.name): q.timeout = 100; q.tier = 'thorough'   # run-length data with symbolic structure: attempts, short cap, never quick
     names = set(); out = []
     for q in qs:
         if q.name in names: continue
